@@ -57,9 +57,16 @@ def alloc (σ : St) (vs : List Val) : St × Nat :=
 
 def errK (k : EK) : Val := .str (.err k)
 
-def accepts : Option Ty → Val → Bool
-  | none, _ => true
-  | some t, v => decide (v.ty = t)
+/-- A map pattern with keys `ks` binds the local `x + i` to the value of its `i`-th key. -/
+def bindKeys (σ : St) (x : Nat) (fs : List (Nat × Int)) : List Nat → St
+  | [] => σ
+  | k :: ks => bindKeys (setLocal σ x (match recGet fs k with | some i => .int i | none => .null)) (x + 1) fs ks
+
+/-- the binding a catch argument makes when it accepts `v` -/
+def bindCatch (σ : St) (ty : Option Ty) (x : Nat) (v : Val) : St :=
+  match ty, v with
+  | some (.keys ks), .mp fs => bindKeys σ x fs ks
+  | _, _ => setLocal σ x v
 
 def insertByKey (k : Int) (v : Val) : List (Int × Val) → List (Int × Val)
   | [] => [(k, v)]
@@ -251,7 +258,7 @@ def run (cfg : Cfg) (P : Prog) : Nat → Task → St → Res
       match cs with
       | [] => (.err v, σ)
       | (ty, x, body) :: rest =>
-        if accepts ty v then run cfg P fuel (.ev body) (setLocal σ x v)
+        if accepts ty v then run cfg P fuel (.ev body) (bindCatch σ ty x v)
         else run cfg P fuel (.catches rest v) σ
     | .callF f args =>
       match P.defs[f]? with
